@@ -263,6 +263,12 @@ def gen_run(rng, cfg):
                 op["reduce"] = rng.random() < 0.4
                 op["gencls"] = rng.choice(["plain", "plain", "plain", "Upper", "UpperMore"])
             op["filename"] = "g.c"
+            if enabled and "line-abort" in enabled and rng.random() < fault_rate * 0.5:
+                # the visit is cut short by an asynchronous abort; this generator is
+                # thrown away afterwards, every other object must be unaffected
+                hi = rng.choice([30, 150, 600, 3000])
+                fault = {"kind": "line-abort", "at": rng.randrange(1, hi), "exc": rng.choice(EXC_KINDS)}
+                dirty_next = True
         op["items"] = items
         if fault is not None:
             op["fault"] = fault
